@@ -7,27 +7,28 @@ import "bytes"
 func VH_C12_sam_sched() {
 	vNumCPU(vParam("NCPU"))
 	mode := vChoice("mode", 3)
-	run := func() string {
+	run := func(threads int) string {
 		w := &vCapture{}
 		var err error
 		switch mode {
 		case 0:
-			err = ToMultiAlign(bytes.NewReader([]byte(vSamText)), w, 0, -1, -1, false, 2)
+			err = ToMultiAlign(bytes.NewReader([]byte(vSamText)), w, 0, -1, -1, false, threads)
 		case 1:
 			vNote("toPairAlign-stdout-with-threads")
 			vStdoutCapture()
-			err = ToPairAlign(bytes.NewReader([]byte(vSamText)), bytes.NewReader([]byte(">ref\nACGTAC\n")), "stdout", 0, -1, -1, false, false, 2)
+			err = ToPairAlign(bytes.NewReader([]byte(vSamText)), bytes.NewReader([]byte(">ref\nACGTAC\n")), "stdout", 0, -1, -1, false, false, threads)
 			return vStdout()
 		default:
 			gb := "LOCUS       TEST 6 bp DNA\nFEATURES             Location/Qualifiers\n     CDS             1..6\n                     /gene=\"g\"\n                     /codon_start=1\n                     /translation=\"TY\"\nORIGIN\n        1 acgtac\n//\n"
-			err = Variants(bytes.NewReader([]byte(vSamText)), nil, false, bytes.NewReader([]byte(gb)), "gb", w, -1, -1, false, 0, false, 2)
+			err = Variants(bytes.NewReader([]byte(vSamText)), nil, false, bytes.NewReader([]byte(gb)), "gb", w, -1, -1, false, 0, false, threads)
 		}
 		vAssert("C12.sam.no-error", err == nil)
 		return string(w.buf)
 	}
-	base := run()
+	base := run(1)
+	threads := 1 + vChoice("threads", 3)
 	vSchedExplore(vParam("DEV"))
-	vAssert("C12.sam.output-independent-of-schedule", run() == base)
+	vAssert("C12.sam.output-independent-of-schedule", run(threads) == base)
 }
 
 // VH_C12_pairwriter_arrival: toPairAlign's stdout writer restores input order for every arrival order.
